@@ -9,6 +9,7 @@ git -C /repo worktree add --detach "$wt" HEAD -q || exit 2
 cd "$wt" || exit 2
 build() { cmake -G Ninja -S . -B _build -DCMAKE_BUILD_TYPE=RelWithDebInfo -DCMAKE_C_FLAGS=-Wno-error -DOVNI_GIT_COMMIT=x -Wno-dev >/dev/null 2>&1 && cmake --build _build >/dev/null 2>&1; }
 applies=1; git apply "$patch" 2>/dev/null || applies=0
+[ $applies = 1 ] && git diff > /tmp/confirm/$id-$var.patch
 suite="n/a"; demo_with="n/a"; demo_without="n/a"
 if [ $applies = 1 ]; then
   if build; then
